@@ -520,7 +520,7 @@ pub struct ChildRec {
 pub struct Digest {
     pub send: std::collections::BTreeMap<u32, (u64, u32)>, // op -> t, seq
     pub resolved: std::collections::BTreeMap<u32, Vec<(u8, u64, u32)>>, // op -> (waiter, t, seq)
-    pub hung: Vec<(u32, u8)>,
+    pub hung: Vec<(u32, u8, u64)>,
     pub marker_start: std::collections::BTreeMap<u32, Vec<(u64, u32, StateKind, StateKind)>>,
     pub marker_end: std::collections::BTreeMap<u32, Vec<(u64, u32)>>,
     pub children: Vec<ChildRec>,
@@ -533,13 +533,17 @@ pub struct Digest {
 
 pub fn digest(out: &RunOut) -> Digest {
     let mut d = Digest::default();
+    let mut scenario_over = false;
     for r in &out.hist {
         match &r.ev {
+            // the root drops its own Job handle after the scenario is over; what happens then is not judged
+            Ev::Note { what: "task-finished-at-end", .. } => scenario_over = true,
+            _ if scenario_over => {}
             Ev::CtlSend { op, .. } => {
                 d.send.insert(*op, (r.t, r.seq));
             }
             Ev::Resolved { op, waiter } => d.resolved.entry(*op).or_default().push((*waiter, r.t, r.seq)),
-            Ev::Hung { op, waiter } => d.hung.push((*op, *waiter)),
+            Ev::Hung { op, waiter } => d.hung.push((*op, *waiter, r.t)),
             Ev::MarkerStart { op, cur, prev } => {
                 d.marker_start.entry(*op).or_default().push((r.t, r.seq, cur.clone(), prev.clone()))
             }
